@@ -93,6 +93,8 @@ def main(argv=None):
                                         during=wl.get("during", False))
         if wl.get("conflict"):
             cases += engine_b.conflict_cases(args.seed, wl["conflict"])
+        if wl.get("during"):
+            cases += engine_b.during_cases(args.seed)
         for c in cases[:3]:
             report.sample({"tid": c["tid"], "phases": [p["edits"] for p in c["phases"]],
                            "plan": c["project"]["scripts"]["./plan.py"]["versions"]})
